@@ -4,7 +4,7 @@
 # scratch worktree of /repo HEAD: demo passes clean, fails with the patch; full suite passes with the patch.
 # Then stores it under /verif/seeded/<Cxx>-<variant>/ . The check itself is run separately (seedtest.sh).
 P=$1; V=$2
-SRC=/tmp/seed-$P/SEED/$V
+SRC=${SEEDBASE:-/tmp/seed}-$P/SEED/$V
 PATCH=${3:-$SRC/patch.diff}
 export GOFLAGS=-mod=mod GOPROXY=off GOSUMDB=off GOTOOLCHAIN=local
 WT=/tmp/sv-$P-$V
